@@ -77,6 +77,21 @@ namespace sqf::runtime
             std::vector<const data*> path{ this };
             return contains_on_path(path);
         }
+
+        /// <summary>
+        /// True if target is this value or is (transitively) contained in it.
+        /// </summary>
+        bool reaches(const data* target) const
+        {
+            if (this == target) { return true; }
+            std::vector<std::shared_ptr<data>> children;
+            contained(children);
+            for (auto& child : children)
+            {
+                if (child && child->reaches(target)) { return true; }
+            }
+            return false;
+        }
     private:
         bool contains_on_path(std::vector<const data*>& path) const
         {
